@@ -7,45 +7,37 @@ package gpurequesthandler
 // The parsers as functions of the annotation string (res.pfVal/pfOk, res.puVal/puOk, res.piVal/piOk) and
 // the property-level notions res.wfFraction / res.wfPosInt are defined once, in pkg/common/resources.
 
-// code-level characterisation (exported to callers): what the validator really accepts
-//@ define okFractionCode(s string) bool = res.pfOk(s) && !(res.pfVal(s) <= 0.0) && !(res.pfVal(s) >= 1.0)
-//@ define okUintCode(s string) bool = res.puOk(s) && res.puVal(s) >= 1
-
+// C19: "Every GPU request that admission accepts (fraction ...) denotes a finite positive quantity":
+// a present gpu-fraction annotation is accepted iff it parses to a finite f with 0 < f < 1.
+// (Before fix 1c0b67c "NaN" was accepted: NaN <= 0 and NaN >= 1 are both false.  The tag is kept.)
 //@ func validateGpuFractionAnnotation
 //@   props C19
 //@   ieee
 //@   pure
-//@   ensures [exact] (result == nil) == (!hasGpuFractionAnnotation || okFractionCode(gpuFractionFromAnnotation))
-//@   ensures [accepts-wellformed] hasGpuFractionAnnotation && res.wfFraction(gpuFractionFromAnnotation) ==> result == nil
-//@   ensures [rejects-unparsable] hasGpuFractionAnnotation && !res.pfOk(gpuFractionFromAnnotation) ==> result != nil
-//@   ensures [rejects-out-of-range] hasGpuFractionAnnotation && isfinite(res.pfVal(gpuFractionFromAnnotation)) && !(fval(res.pfVal(gpuFractionFromAnnotation)) > 0.0 && fval(res.pfVal(gpuFractionFromAnnotation)) < 1.0) ==> result != nil
-//@   ensures [rejects-inf] hasGpuFractionAnnotation && isinf(res.pfVal(gpuFractionFromAnnotation)) ==> result != nil
-//@   ensures [only-nan-escapes] result == nil && hasGpuFractionAnnotation && !res.wfFraction(gpuFractionFromAnnotation) ==> res.pfOk(gpuFractionFromAnnotation) && isnan(res.pfVal(gpuFractionFromAnnotation))
-// the property-derived clause: accepted ==> finite and 0 < f < 1.  The real code accepts "NaN"
-// (lemma: proved at exit, NOT exported to callers, so a red finding cannot make a caller green).
-//@   lemma [finding-nan-fraction] result == nil <==> (!hasGpuFractionAnnotation || res.wfFraction(gpuFractionFromAnnotation))
+//@   ensures [finding-nan-fraction] (result == nil) == (!hasGpuFractionAnnotation || res.wfFraction(gpuFractionFromAnnotation))
+//@   lemma [rejects-nan] hasGpuFractionAnnotation && isnan(res.pfVal(gpuFractionFromAnnotation)) ==> result != nil
+//@   lemma [rejects-inf] hasGpuFractionAnnotation && isinf(res.pfVal(gpuFractionFromAnnotation)) ==> result != nil
+//@   lemma [rejects-unparsable] hasGpuFractionAnnotation && !res.pfOk(gpuFractionFromAnnotation) ==> result != nil
+//@   lemma [rejects-one] hasGpuFractionAnnotation && isfinite(res.pfVal(gpuFractionFromAnnotation)) && fval(res.pfVal(gpuFractionFromAnnotation)) >= 1.0 ==> result != nil
+//@   lemma [rejects-zero] hasGpuFractionAnnotation && isfinite(res.pfVal(gpuFractionFromAnnotation)) && fval(res.pfVal(gpuFractionFromAnnotation)) <= 0.0 ==> result != nil
 //@ end
 
-// C19: gpu-memory present ==> 1 <= m <= MaxInt64, where m is what the scheduler / binder read
-// with ParseInt.  The validator uses ParseUint: values in (MaxInt64, MaxUint64] are accepted.
+// C19: gpu-memory present ==> 1 <= m <= MaxInt64, where m is what the scheduler / binder read with
+// ParseInt.  (Before fix 1c0b67c the validator used ParseUint: (MaxInt64, MaxUint64] was accepted.)
 //@ func validateMemoryAnnotation
 //@   props C19
 //@   pure
-//@   ensures [exact] (result == nil) == (!hasGpuMemoryAnnotation || okUintCode(gpuMemoryFromAnnotation))
-//@   ensures [in-range-agrees] result == nil && hasGpuMemoryAnnotation && res.puVal(gpuMemoryFromAnnotation) <= res.maxInt64() ==> res.wfPosInt(gpuMemoryFromAnnotation) && res.piVal(gpuMemoryFromAnnotation) == res.puVal(gpuMemoryFromAnnotation)
-//@   ensures [rejects-malformed] hasGpuMemoryAnnotation && !res.piOk(gpuMemoryFromAnnotation) && !res.puOk(gpuMemoryFromAnnotation) ==> result != nil
-//@   ensures [rejects-nonpositive] hasGpuMemoryAnnotation && res.piOk(gpuMemoryFromAnnotation) && res.piVal(gpuMemoryFromAnnotation) <= 0 ==> result != nil
-//@   lemma [finding-uint-memory] result == nil ==> (!hasGpuMemoryAnnotation || res.wfPosInt(gpuMemoryFromAnnotation))
+//@   ensures [finding-uint-memory] (result == nil) == (!hasGpuMemoryAnnotation || res.wfPosInt(gpuMemoryFromAnnotation))
+//@   lemma [rejects-above-maxint64] hasGpuMemoryAnnotation && res.puOk(gpuMemoryFromAnnotation) && res.puVal(gpuMemoryFromAnnotation) > res.maxInt64() ==> result != nil
+//@   lemma [rejects-nonpositive] hasGpuMemoryAnnotation && res.piOk(gpuMemoryFromAnnotation) && res.piVal(gpuMemoryFromAnnotation) <= 0 ==> result != nil
 //@ end
 
 //@ func validateMultiFractionRequest
 //@   props C19
 //@   pure
-//@   ensures [exact] (result == nil) == (!hasGpuFractionsCount || okUintCode(gpuFractionsCountFromAnnotation))
-//@   ensures [in-range-agrees] result == nil && hasGpuFractionsCount && res.puVal(gpuFractionsCountFromAnnotation) <= res.maxInt64() ==> res.wfPosInt(gpuFractionsCountFromAnnotation) && res.piVal(gpuFractionsCountFromAnnotation) == res.puVal(gpuFractionsCountFromAnnotation)
-//@   ensures [rejects-malformed] hasGpuFractionsCount && !res.piOk(gpuFractionsCountFromAnnotation) && !res.puOk(gpuFractionsCountFromAnnotation) ==> result != nil
-//@   ensures [rejects-nonpositive] hasGpuFractionsCount && res.piOk(gpuFractionsCountFromAnnotation) && res.piVal(gpuFractionsCountFromAnnotation) <= 0 ==> result != nil
-//@   lemma [finding-uint-count] result == nil ==> (!hasGpuFractionsCount || res.wfPosInt(gpuFractionsCountFromAnnotation))
+//@   ensures [finding-uint-count] (result == nil) == (!hasGpuFractionsCount || res.wfPosInt(gpuFractionsCountFromAnnotation))
+//@   lemma [rejects-above-maxint64] hasGpuFractionsCount && res.puOk(gpuFractionsCountFromAnnotation) && res.puVal(gpuFractionsCountFromAnnotation) > res.maxInt64() ==> result != nil
+//@   lemma [rejects-nonpositive] hasGpuFractionsCount && res.piOk(gpuFractionsCountFromAnnotation) && res.piVal(gpuFractionsCountFromAnnotation) <= 0 ==> result != nil
 //@ end
 
 // ---- whole-GPU limit ------------------------------------------------------------------------
@@ -73,8 +65,6 @@ package gpurequesthandler
 // combinations that must be rejected whatever the values are (C19: "not both fraction and memory / whole GPU";
 // a device count needs a portion or an amount of memory; MPS only with a fraction)
 //@ define badCombination(pod *v1.Pod) bool = mpsWithoutFraction(pod) || (res.hasFrac(pod) && hasWholeGpuLimit(pod)) || (res.hasMem(pod) && (res.hasFrac(pod) || hasWholeGpuLimit(pod))) || (res.hasCount(pod) && !res.hasFrac(pod) && !res.hasMem(pod))
-// what the code accepts, value-wise
-//@ define valuesOkCode(pod *v1.Pod) bool = (!res.hasMem(pod) || okUintCode(res.memStr(pod))) && (!res.hasFrac(pod) || okFractionCode(res.fracStr(pod))) && (!res.hasCount(pod) || okUintCode(res.countStr(pod)))
 // what the property demands, value-wise
 //@ define valuesWellFormed(pod *v1.Pod) bool = (!res.hasMem(pod) || res.wfPosInt(res.memStr(pod))) && (!res.hasFrac(pod) || res.wfFraction(res.fracStr(pod))) && (!res.hasCount(pod) || res.wfPosInt(res.countStr(pod)))
 
@@ -86,17 +76,14 @@ package gpurequesthandler
 //@   ieee
 //@   requires pod != nil
 //@   pure
-//@   ensures [exact] (result == nil) == (!badCombination(pod) && valuesOkCode(pod))
+//@   ensures [exact] (result == nil) == (!badCombination(pod) && valuesWellFormed(pod))
 //@   ensures [excl-fraction-whole] result == nil ==> !(res.hasFrac(pod) && hasWholeGpuLimit(pod))
 //@   ensures [excl-memory-fraction] result == nil ==> !(res.hasMem(pod) && res.hasFrac(pod))
 //@   ensures [excl-memory-whole] result == nil ==> !(res.hasMem(pod) && hasWholeGpuLimit(pod))
 //@   ensures [count-needs-portion] result == nil && res.hasCount(pod) ==> res.hasFrac(pod) || res.hasMem(pod)
 //@   ensures [mps-needs-fraction] result == nil ==> !mpsWithoutFraction(pod)
-//@   ensures [accepts-wellformed] !badCombination(pod) && valuesWellFormed(pod) && (res.hasMem(pod) ==> res.puOk(res.memStr(pod))) && (res.hasCount(pod) ==> res.puOk(res.countStr(pod))) ==> result == nil
-//@   ensures [fraction-only-nan-escapes] result == nil && res.hasFrac(pod) && !res.wfFraction(res.fracStr(pod)) ==> res.pfOk(res.fracStr(pod)) && isnan(res.pfVal(res.fracStr(pod)))
-//@   ensures [memory-only-overflow-escapes] result == nil && res.hasMem(pod) && !res.wfPosInt(res.memStr(pod)) ==> res.puOk(res.memStr(pod)) && res.puVal(res.memStr(pod)) > res.maxInt64()
-//@   ensures [count-only-overflow-escapes] result == nil && res.hasCount(pod) && !res.wfPosInt(res.countStr(pod)) ==> res.puOk(res.countStr(pod)) && res.puVal(res.countStr(pod)) > res.maxInt64()
-// property-derived clauses the real code does not meet (kept as lemmas: never assumed by callers)
+//@   ensures [accepts-wellformed] !badCombination(pod) && valuesWellFormed(pod) ==> result == nil
+// (these three were red before fix 1c0b67c: "NaN", and values in (MaxInt64, MaxUint64]; names kept for known_findings.json)
 //@   lemma [finding-nan-fraction] result == nil && res.hasFrac(pod) ==> res.wfFraction(res.fracStr(pod))
 //@   lemma [finding-uint-memory] result == nil && res.hasMem(pod) ==> res.wfPosInt(res.memStr(pod))
 //@   lemma [finding-uint-count] result == nil && res.hasCount(pod) ==> res.wfPosInt(res.countStr(pod))
